@@ -476,6 +476,23 @@ def part_trace(ctx, res, tally):
         rc, out, prs = go_rows(ctx, pkg, run, {"VERIF_IN": pin}, "c06_probe_%s_out.ndjson" % lvl)
         if rc != 0 or len(prs) != len(lst):
             raise vlib.Inconclusive("C06 probe (%s) did not complete:\n%s" % (lvl, out[-3000:]))
+        if lvl == "pipe" and any(pr.get("admissible") for pr in prs):
+            # Second stage for what the last transition alone does not reproduce: the whole life of
+            # the live server up to that line (every earlier table and its queries) is rehearsed.
+            again = [k for k, pr in enumerate(prs) if pr.get("admissible")]
+            pin2 = ctx.path("c06_probe_pipe_life.ndjson")
+            pl = []
+            for k in again:
+                b, ln, x = lst[k]
+                life = [{"table": r["table"], "qs": [[q["h"], q["qt"]] for q in r["qs"]]}
+                        for r in rows[:b["l"] - 1] if r["lvl"] == "pipe"]
+                pl.append({"tab": ln["tab"], "h": x["h"], "qt": x["qt"], "query": x["query"], "expect": b["exp"], "life": life})
+            vlib.write_ndjson(pin2, pl)
+            rc, out, prs2 = go_rows(ctx, pkg, run, {"VERIF_IN": pin2}, "c06_probe_pipe_life_out.ndjson")
+            if rc != 0 or len(prs2) != len(again):
+                raise vlib.Inconclusive("C06 probe (pipe, whole life) did not complete:\n%s" % out[-3000:])
+            for k, pr2 in zip(again, prs2):
+                prs[k] = pr2
         for (b, ln, x), pr in zip(lst, prs):
             if pr.get("admissible") or pr.get("skipped"):
                 not_reproduced += 1
